@@ -288,6 +288,30 @@ fn placeholder_cases() -> &'static Vec<Case> {
     })
 }
 
+/// lists of 2..40 large whole numbers (sums that leave i64 or 2^53 although every argument and the mean are far inside)
+fn big_list_cases() -> &'static Vec<Case> {
+    static CELL: std::sync::OnceLock<Vec<Case>> = std::sync::OnceLock::new();
+    CELL.get_or_init(|| {
+        let mut out = Vec::new();
+        for ev in EVS {
+            for v in [950000000000000000i64, 4611686018427387904, 999999999999999999, 9007199254740993, 922337203685477581, 3000000000000000000, -950000000000000000] {
+                for n in [2usize, 5, 9, 10, 11, 16, 20, 40] {
+                    for alt in [None, Some(1i64), Some(-1)] {
+                        let ks: Vec<i64> = (0..n).map(|i| if i % 2 == 1 { alt.map(|a| a * v.signum()).unwrap_or(v) } else { v }).collect();
+                        for f in ["avg", "med", "min", "max"] {
+                            let args: Vec<String> = ks.iter().map(|k| if *k < 0 { format!("(0-{})", -(*k as i128)) } else { k.to_string() }).collect();
+                            let mut c = Case::new(ev, format!("{}({})", f, args.join(",")), Val::default_for(ev));
+                            c.aux = vec![f.to_string(), ks.iter().map(|k| k.to_string()).collect::<Vec<_>>().join(" "), "big-list".into()];
+                            out.push(c);
+                        }
+                    }
+                }
+            }
+        }
+        out
+    })
+}
+
 /// eval_decimal min / max / odd median over every ordered tuple (3 and 5 arguments) of values whose magnitudes and
 /// scales are far apart (28 fractional digits next to 11-digit and 29-digit integers): the result is one of the
 /// arguments, whatever the order they are written in (keys that overflow when brought to a common scale)
@@ -367,6 +391,7 @@ impl Prop for C11Prop {
             Sub { name: "large", kind: SubKind::Enum { count: large_cases().len() as u64 } },
             Sub { name: "long-lists", kind: SubKind::Random { cases: tier.pick(60_000, 3_000_000), len: 300 } },
             Sub { name: "placeholder", kind: SubKind::Enum { count: placeholder_cases().len() as u64 } },
+            Sub { name: "big-lists", kind: SubKind::Enum { count: big_list_cases().len() as u64 } },
             Sub { name: "dec-mixed", kind: SubKind::Enum { count: dec_mixed_cases().len() as u64 } },
             Sub { name: "nested", kind: SubKind::Random { cases: tier.pick(150_000, 5_000_000), len: 80 } },
         ]
@@ -380,6 +405,9 @@ impl Prop for C11Prop {
         }
         if sub == "dec-mixed" {
             return dec_mixed_cases().get(idx as usize).cloned();
+        }
+        if sub == "big-lists" {
+            return big_list_cases().get(idx as usize).cloned();
         }
         if sub == "failing" {
             // (ev, func, length 1..=5, failing position) and empty lists
@@ -557,6 +585,40 @@ impl Prop for C11Prop {
                     return Err(Failure::new(format!("{}/aggregate-of-placeholder/{}", ev.name(), canon), format!("{} (the placeholder itself)", case.ph.show()), o.show()));
                 }
                 sc.class(&format!("{}:{} of the placeholder", ev.name(), canon));
+                sc.nontrivial(case.hash(), || sample(case, &o.show()));
+                return Ok(());
+            }
+            Some("big-list") if ev != Ev::I64 => {
+                // exact rational value of the aggregate; the evaluator's sum may round, so 1e-12 relative (Decimal: exact)
+                let ks: Vec<i128> = case.aux[1].split_whitespace().filter_map(|t| t.parse().ok()).collect();
+                let mut sorted = ks.clone();
+                sorted.sort();
+                let n = ks.len() as i128;
+                let (num, den): (i128, i128) = match canon {
+                    "min" => (sorted[0], 1),
+                    "max" => (sorted[sorted.len() - 1], 1),
+                    "avg" => (ks.iter().sum(), n),
+                    _ => {
+                        if n % 2 == 1 {
+                            (sorted[(n / 2) as usize], 1)
+                        } else {
+                            (sorted[(n / 2 - 1) as usize] + sorted[(n / 2) as usize], 2)
+                        }
+                    }
+                };
+                let want = num as f64 / den as f64;
+                let ok = match &o {
+                    Outcome::Ok(Val::D(g)) => {
+                        use rust_decimal::prelude::ToPrimitive;
+                        (g.to_f64().unwrap_or(f64::NAN) - want).abs() <= 1e-12 * want.abs()
+                    }
+                    Outcome::Ok(v) => (v.as_f64() - want).abs() <= 1e-12 * want.abs(),
+                    _ => false,
+                };
+                if !ok {
+                    return Err(Failure::new(format!("{}/aggregate-big-list/{}", ev.name(), canon), format!("{:?} within 1e-12 relative (exact value {}/{})", want, num, den), o.show()));
+                }
+                sc.class(&format!("{}:{} of large whole numbers", ev.name(), canon));
                 sc.nontrivial(case.hash(), || sample(case, &o.show()));
                 return Ok(());
             }
